@@ -49,7 +49,9 @@ Definition sm_obs_eqb (m o : sm_obs) : bool :=
       list_eqb who_eqb (o_alive m) (o_alive o) &&
       Bool.eqb (o_timer_armed m) (o_timer_armed o) && Bool.eqb (o_timer_fired m) (o_timer_fired o) &&
       Bool.eqb (o_reaped m) (o_reaped o) &&
-      Nat.eqb (o_nout m) (o_nout o) && Nat.eqb (o_nerr m) (o_nerr o)
+      Nat.eqb (o_nout m) (o_nout o) && Nat.eqb (o_nerr m) (o_nerr o) &&
+      (* every join call, in order, with or without the 1 s timeout *)
+      list_eqb (fun a b => who_eqb (fst a) (fst b) && Bool.eqb (snd a) (snd b)) (o_joins m) (o_joins o)
   end.
 
 Definition model_interval (k : case) : option nat :=
